@@ -88,3 +88,108 @@ def check_explicit_arguments(idx: Index, rep, relpaths: Iterable[str], rule: str
                 rep.ok(rule, (m.relpath, qual), node, text=f"{qual}: `{p}` defaults to {src}" + (f" (listed exception: {why})" if later else ""),
                        what="once an optional argument has been resolved against its stored default, the function works with the resolved value only")
     return n
+
+
+# ---------------------------------------------------------------------------------------------------
+# K7.falsy-default: `value = param or fallback` replaces an explicit 0 / 0.0 / False by the fallback
+_FALSY_EXAMPLE = '''
+class A:
+    """Args:
+        molecule (Mol): the molecule
+        spin (int): 2*S, defaults to the molecule's
+        name (str): label
+    """
+    def __init__(self, molecule, spin=None, name=None, shots: int = None):
+        self.spin = spin or molecule.active_spin
+        self.name = name or "no_name"
+        self.shots = shots if shots else 100
+        self.ok = molecule.spin if spin is None else spin
+'''
+
+_NUMERIC_WORDS = ("int", "float", "number", "bool", "complex", "double", "real")
+
+
+def _doc_types(doc: str):
+    """{parameter: type text} from a Google-style `name (type): description` docstring"""
+    import re
+    out = {}
+    for m in re.finditer(r"^\s*(\w+)\s*\(([^)]*)\)\s*:", doc or "", re.M):
+        out[m.group(1)] = m.group(2).lower()
+    return out
+
+
+def falsy_default_findings(tree: ast.AST):
+    out = []
+
+    def used_as_number(scope: ast.AST, texts) -> bool:
+        """is one of the expressions (by source text) compared with a numeric literal or used in arithmetic somewhere in `scope`?"""
+        for n in ast.walk(scope):
+            if isinstance(n, ast.Compare) and len(n.ops) == 1 and not isinstance(n.ops[0], (ast.Is, ast.IsNot, ast.In, ast.NotIn)):
+                sides = [n.left, n.comparators[0]]
+                if any(ast.unparse(x) in texts for x in sides) and any(isinstance(x, ast.Constant) and isinstance(x.value, (int, float)) and not isinstance(x.value, bool) for x in sides):
+                    return True
+            if isinstance(n, ast.BinOp) and isinstance(n.op, (ast.FloorDiv, ast.Mult, ast.Add, ast.Sub, ast.Div, ast.Mod, ast.Pow)) and \
+                    any(ast.unparse(x) in texts for x in (n.left, n.right)) and not any(isinstance(x, ast.Constant) and isinstance(x.value, str) for x in (n.left, n.right)):
+                return True
+        return False
+
+    def visit(body, prefix, cls_doc, scope=None):
+        for fn in body:
+            if isinstance(fn, ast.ClassDef):
+                visit(fn.body, prefix + fn.name + ".", ast.get_docstring(fn) or "", fn)
+                continue
+            if not isinstance(fn, (ast.FunctionDef, ast.AsyncFunctionDef)):
+                continue
+            types = dict(_doc_types(cls_doc))
+            types.update(_doc_types(ast.get_docstring(fn) or ""))
+            args = fn.args.posonlyargs + fn.args.args + fn.args.kwonlyargs
+            for a in args:
+                if a.annotation is not None:
+                    types[a.arg] = ast.unparse(a.annotation).lower()
+            numeric = {a.arg for a in args if any(w in types.get(a.arg, "") for w in _NUMERIC_WORDS)}
+            for st in ast.walk(fn):
+                if not isinstance(st, (ast.Assign, ast.AnnAssign, ast.Return)) or getattr(st, "value", None) is None:
+                    continue
+                v = st.value
+                hit = None
+                if isinstance(v, ast.BoolOp) and isinstance(v.op, ast.Or) and isinstance(v.values[0], ast.Name) and v.values[0].id in numeric:
+                    hit = v.values[0].id
+                if isinstance(v, ast.IfExp) and isinstance(v.test, ast.Name) and v.test.id in numeric and isinstance(v.body, ast.Name) and v.body.id == v.test.id:
+                    hit = v.test.id
+                if isinstance(v, ast.IfExp) and isinstance(v.test, ast.UnaryOp) and isinstance(v.test.op, ast.Not) and isinstance(v.test.operand, ast.Name) and \
+                        v.test.operand.id in numeric and isinstance(v.orelse, ast.Name) and v.orelse.id == v.test.operand.id:
+                    hit = v.test.operand.id
+                if hit:
+                    out.append((fn, prefix + fn.name, hit, ast.unparse(v), types.get(hit, "")))
+                    continue
+                # not documented as a number, but used as one: the value (or the attribute it is stored in) is compared with a number / enters arithmetic
+                cand = None
+                if isinstance(v, ast.BoolOp) and isinstance(v.op, ast.Or) and isinstance(v.values[0], ast.Name) and v.values[0].id in {a.arg for a in args}:
+                    cand = v.values[0].id
+                if cand and not isinstance(st, ast.Return):
+                    tg = st.targets[0] if isinstance(st, ast.Assign) else st.target
+                    texts = {cand, ast.unparse(tg)}
+                    if used_as_number(scope if scope is not None else fn, texts):
+                        out.append((fn, prefix + fn.name, cand, ast.unparse(v), "used in arithmetic / compared with a number"))
+            visit(fn.body, prefix + fn.name + ".", cls_doc, scope)
+    visit(tree.body, "", "")
+    return out
+
+
+def check_falsy_defaults(idx: Index, rep, relpaths: Iterable[str], rule: str = "K7.falsy-default") -> int:
+    ex = falsy_default_findings(ast.parse(_FALSY_EXAMPLE))
+    if sorted(h for _, _, h, _, _ in ex) != ["shots", "spin"]:
+        raise AnalysisError(f"falsy-default rule self-check failed: built-in example gives {[(q, h) for _, q, h, _, _ in ex]}")
+    n = 0
+    for rel in relpaths:
+        try:
+            m = idx.module_by_relpath(rel)
+        except Exception:
+            continue
+        for node, qual, p, expr, ty in falsy_default_findings(m.tree):
+            n += 1
+            rep.violation(rule, (m.relpath, qual), node, text=f"{qual}: `{expr[:70]}`", what="an argument documented as a number is used as given, zero included",
+                          reason=f"`{p}` ({ty}) is defaulted by truthiness: an explicit {p}=0 is replaced by the fallback")
+        rep.ok(rule, (m.relpath, "<module>"), None, text=f"{rel}: numeric arguments are not defaulted by truthiness", what="an argument documented as a number is used as given, zero included",
+               nontrivial=False)
+    return n
